@@ -10,12 +10,12 @@ import itertools
 from hypothesis import strategies as st
 
 import xtuml
-from .core import Violation, hyp_run, loop_run, Res
+from .core import Violation, hyp_run, loop_run, Res, TimeLimit
 
 PROPERTY = 'C17'
 RULE = ('operation sequences over xtuml.OrderedSet and xtuml.QuerySet: exhaustive product of a '
-        '48-call alphabet (add/discard/remove x, pop last/first, clear, iterate-discarding-current forwards and in reverse, '
-        '|= &= -= ^= with operands [], [0], (1,2), OrderedSet[2,1,0], the repeating list [2,0,2] and self, s = s|&-^ operand) '
+        '50-call alphabet (add/discard/remove x, pop last/first, clear, iterate-discarding-current forwards and in reverse, '
+        '|= &= -= ^= with operands [], [0], (1,2), OrderedSet[2,1,0], the repeating list [2,0,2] and self, |= with an operand that fails half way (iterator raising, unhashable element), s = s|&-^ operand) '
         'on universe {0,1,2} up to the stated length, plus Hypothesis sequences up to length 60 '
         'over 8 elements; full comparison with the list/set model after the last call of every '
         'sequence (every prefix is itself an enumerated sequence) and of every return value on '
@@ -151,6 +151,33 @@ def apply(cls, real, model, op, case):
                         model.loose.add(v)
         if real is not ident:
             fail('inplace-op-not-inplace', 'in-place operator returned a different object')
+    elif name == 'ior_fail':
+        # an in-place union whose operand fails half way (an element that cannot be hashed, or an iterator that raises):
+        # the exception reaches the caller and the set stays an ordered set - whatever arrived before the failure is in it
+        vals, k, how = list(op[1]), op[2], op[3]
+
+        def failing():
+            for v in vals[:k]:
+                yield v
+            if how == 'raise':
+                raise ValueError('operand failed')
+            yield []
+            for v in vals[k:]:
+                yield v
+        ident = real
+        try:
+            real |= (failing() if how == 'raise' or op[4] else list(failing()))
+        except (ValueError, TypeError):
+            pass
+        else:
+            fail('failing-operand-no-exception', 'in-place union with a failing operand returned normally')
+        if real is not ident:
+            fail('inplace-op-not-inplace', 'in-place operator rebound the name although it raised')
+        now = list(real)
+        if not (set(before) <= set(now) <= set(before) | set(vals)) or len(set(now)) != len(now):
+            fail('failed-union-wrong-elements', 'before %r, operand %r failing at %d, after %r' % (before, vals, k, now))
+        for v in now:
+            model.add(v)
     elif name in ('or', 'and', 'sub', 'xor'):
         o = operand(cls, op[1], real)
         vals = set(op[1][1])
@@ -245,9 +272,14 @@ def run_sequence(clsname, seq, universe):
     case = {'cls': clsname, 'ops': [list(o) if not isinstance(o, str) else o for o in seq]}
     real = cls()
     model = Model()
-    for op in seq:
-        real = apply(cls, real, model, op, case)
-    compare(cls, real, model, universe, case)
+    try:
+        # a corrupted ring of nodes makes iteration run for ever: that is a wrong answer, not a reason to wait
+        with TimeLimit(10):
+            for op in seq:
+                real = apply(cls, real, model, op, case)
+            compare(cls, real, model, universe, case)
+    except TimeLimit.Expired:
+        raise Violation('does-not-terminate', case, 'a call on the set (iteration, len, comparison ...) did not return within 10 s', fatal=True)
 
 
 def is_nontrivial(seq):
@@ -270,6 +302,9 @@ def is_nontrivial(seq):
             if op[1] in removed and op[1] not in present:
                 readd = True
             present.add(op[1])
+        elif n == 'ior_fail':
+            inplace = True
+            present |= set(op[1][:op[2]])
         elif n in ('ior', 'iand', 'isub', 'ixor'):
             inplace = True
             if n in ('ior', 'ixor') and op[1][0] != 'self':
@@ -297,6 +332,7 @@ def alphabet(universe, reduced=False):
     for n in ('ior', 'iand', 'isub', 'ixor'):
         for o in operands:
             ops.append((n, o))
+    ops += [('ior_fail', (0, 1), 1, 'raise', True), ('ior_fail', (2, 1), 2, 'hash', True)]
     if not reduced:
         for n in ('or', 'and', 'sub', 'xor'):
             for o in (('list', (0,)), ('oset', (1, 2))):
@@ -320,6 +356,8 @@ def op_strategy(universe):
         st.tuples(st.sampled_from(['ior', 'iand', 'isub', 'ixor']), operand_s),
         st.tuples(st.sampled_from(['or', 'and', 'sub', 'xor']),
                   st.tuples(st.sampled_from(['list', 'tuple', 'oset', 'same']), vals)),
+        st.tuples(st.just('ior_fail'), st.lists(u, min_size=1, max_size=5).map(tuple), st.integers(0, 5),
+                  st.sampled_from(['raise', 'hash']), st.booleans()).map(lambda t: (t[0], t[1], min(t[2], len(t[1])), t[3], t[4])),
     )
 
 
